@@ -89,7 +89,7 @@ def rust_str_unescape(s):
 # --------------------------------------------------------------------------
 # expressions of policy.rs
 
-TOK = re.compile(r'\s*(<<|<=|>=|==|[A-Za-z_][A-Za-z_0-9.]*|\d[\d_]*|[()<>+*{};=-])')
+TOK = re.compile(r'\s*(<<|<=|>=|==|[A-Za-z_][A-Za-z_0-9.]*|\d[\d_]*|[()<>+*{};=,-])')
 
 
 def tokenize(s):
@@ -108,10 +108,12 @@ def tokenize(s):
 class PParser:
     """if/else, let, Some/None, + * << < <= over identifiers and literals."""
 
-    def __init__(self, toks, idents):
+    def __init__(self, toks, idents, helpers=None, depth=0):
         self.t = toks
         self.i = 0
         self.idents = idents  # rust ident -> coq ident
+        self.helpers = helpers or {}   # private helper functions of the module: name -> (parameter names, body tokens)
+        self.depth = depth
 
     def peek(self):
         return self.t[self.i] if self.i < len(self.t) else None
@@ -144,6 +146,20 @@ class PParser:
             self.eat('if')
             c = self.cmp()
             self.eat('{')
+            if self.peek() == 'return':
+                # `if c { return e; } rest`  is  `if c { e } else { rest }`
+                self.eat('return')
+                a = self.expr()
+                self.eat(';')
+                self.eat('}')
+                if self.peek() == 'else':
+                    self.eat('else')
+                    self.eat('{')
+                    b = self.block()
+                    self.eat('}')
+                else:
+                    b = self.block()
+                return '(if %s then %s else %s)' % (c, a, b)
             a = self.block()
             self.eat('}')
             self.eat('else')
@@ -159,6 +175,10 @@ class PParser:
             o = self.eat()
             b = self.shift()
             return '(%s %s? %s)' % (a, o, b)
+        if self.peek() in ('>', '>='):
+            o = self.eat()
+            b = self.shift()
+            return '(%s %s? %s)' % (b, '<' if o == '>' else '<=', a)
         return a
 
     def shift(self):
@@ -200,6 +220,29 @@ class PParser:
             return 'None'
         if re.match(r'^\d', tok):
             return tok.replace('_', '')
+        if tok in self.helpers and self.peek() == '(':
+            if self.depth > 3:
+                raise TranslateError('policy: helper calls nested too deeply at %r' % tok)
+            hparams, htoks = self.helpers[tok]
+            self.eat('(')
+            args = []
+            while self.peek() != ')':
+                args.append(self.expr())
+                if self.peek() == ',':
+                    self.eat(',')
+            self.eat(')')
+            if len(args) != len(hparams):
+                raise TranslateError('policy: helper %s called with %d arguments' % (tok, len(args)))
+            names = ['%s_%s' % (tok, q) for q in hparams]       # fresh names: no capture of the caller's variables
+            hid = {k: v for k, v in self.idents.items() if k.isupper() or k.upper() == k}   # module constants only
+            hid.update(dict(zip(hparams, names)))
+            hp = PParser(list(htoks), hid, self.helpers, self.depth + 1)
+            body = hp.block()
+            if hp.peek() is not None:
+                raise TranslateError('policy: trailing tokens in helper %s' % tok)
+            for nme, a in reversed(list(zip(names, args))):
+                body = '(let %s := %s in %s)' % (nme, a, body)
+            return body
         if tok in self.idents:
             return self.idents[tok]
         raise TranslateError('policy: unknown identifier %r' % tok)
@@ -215,6 +258,18 @@ def gen_policy(src):
         ('DoubleUntilLimited', 'double_until_limited_grow_to',
          {'self.double_until': 'self_double_until', 'self.limit': 'self_limit'}),
     ]
+    # module-level constants (`const NAME: usize = <constant expression>;`) and private helper functions over usize
+    consts = {}
+    for cm in re.finditer(r'(?:pub\s+)?const\s+([A-Z_][A-Z_0-9]*)\s*:\s*usize\s*=\s*([^;]+);', src):
+        cp = PParser(tokenize(cm.group(2)), dict(consts))
+        consts[cm.group(1)] = cp.expr()
+        if cp.peek() is not None:
+            raise TranslateError('policy: constant %s not recognised' % cm.group(1))
+    helpers = {}
+    for hm in re.finditer(r'(?:^|\n)\s*(?:#\[inline\]\s*)?(?:pub(?:\(crate\))?\s+)?fn\s+(\w+)\s*\(\s*((?:\w+\s*:\s*usize\s*,?\s*)*)\)\s*->\s*(?:usize|Option<usize>)\s*\{', src):
+        hend = match_brace(src, hm.end() - 1)
+        hps = [q.split(':')[0].strip() for q in hm.group(2).split(',') if q.strip()]
+        helpers[hm.group(1)] = (hps, tokenize(src[hm.end():hend]))
     for ty, name, fields in specs:
         m = re.search(r'impl\s+BufPolicy\s+for\s+%s\s*\{' % ty, src)
         if not m:
@@ -227,9 +282,10 @@ def gen_policy(src):
         fend = match_brace(body, fm.end() - 1)
         fbody = body[fm.end():fend]
         arg = fm.group(1)
-        idents = dict(fields)
+        idents = dict(consts)
+        idents.update(fields)
         idents[arg] = 'current_size'
-        p = PParser(tokenize(fbody), idents)
+        p = PParser(tokenize(fbody), idents, helpers)
         e = p.block()
         if p.peek() is not None:
             raise TranslateError('policy: trailing tokens in %s' % ty)
@@ -528,11 +584,30 @@ def gen_writer_fn(src, fname, coqname, params, callmap):
     end = match_brace(src, m.end() - 1)
     body = src[m.end():end]
 
-    def stmts(text):
+    def helper_terms(name, args, depth):
+        """a call of a helper function of the same file that is not one of the known writers (e.g. a private function
+        holding the common tail of two writers): its body is translated in place, parameters replaced by the arguments"""
+        if depth > 3:
+            raise TranslateError('writer: helper calls nested too deeply at %s in %s' % (name, fname))
+        hm = re.search(r'(?:pub\s+)?fn\s+%s\s*<[^{]*?\(\s*((?:[^()]|\([^()]*\))*)\)\s*->\s*io::Result<\(\)>[^{]*\{' % name, src, re.S)
+        if not hm:
+            raise TranslateError('writer: unknown call %r in %s' % (name, fname))
+        hsig = re.sub(r'\s+', ' ', hm.group(1))
+        hnames = [q.split(':')[0].replace('mut', '').strip() for q in split_top_commas(hsig)]
+        if not hnames or hnames[0] != 'writer' or len(hnames) != len(args) + 1:
+            raise TranslateError('writer: helper %s called from %s with unexpected parameters %r' % (name, fname, hnames))
+        hend = match_brace(src, hm.end() - 1)
+        return stmts(src[hm.end():hend], dict(zip(hnames[1:], args)), depth + 1)
+
+    def stmts(text, rename=None, depth=0):
         """returns list of coq terms to be appended"""
         terms = []
         i = 0
         text = text.strip()
+        known = [p[0] for p in params] + ['d']
+        if rename is not None:
+            known = list(rename) + ['d']
+        ren = (lambda x: rename.get(x, x)) if rename is not None else (lambda x: x)
         while text:
             mm = re.match(r'^writer\.write_all\(\s*b"((?:[^"\\]|\\.)*)"\s*\)\s*(\?\s*;|$)', text)
             if mm:
@@ -541,24 +616,25 @@ def gen_writer_fn(src, fname, coqname, params, callmap):
                 continue
             mm = re.match(r'^writer\.write_all\(\s*(\w+)\s*\)\s*(\?\s*;|$)', text)
             if mm:
-                if mm.group(1) not in [p[0] for p in params] + ['d']:
+                if mm.group(1) not in known:
                     raise TranslateError('writer: unknown operand %r in %s' % (mm.group(1), fname))
-                terms.append(mm.group(1) if mm.group(1) != 'seq' else 'seq')
+                terms.append(ren(mm.group(1)))
                 text = text[mm.end():].strip()
                 continue
             mm = re.match(r'^if\s+let\s+Some\(d\)\s*=\s*desc\s*\{', text)
             if mm:
                 e = match_brace(text, mm.end() - 1)
-                inner = stmts(text[mm.end():e])
-                terms.append('(match desc with Some d => %s | None => [] end)' % ' ++ '.join(inner))
+                inner = stmts(text[mm.end():e], rename, depth)
+                terms.append('(match %s with Some d => %s | None => [] end)' % (ren('desc'), ' ++ '.join(inner)))
                 text = text[e + 1:].strip()
                 continue
             mm = re.match(r'^(\w+)\(\s*&mut writer\s*((?:,\s*\w+\s*)*)\)\s*(\?\s*;|$)', text)
             if mm:
+                args = [ren(a.strip()) for a in mm.group(2).split(',') if a.strip()]
                 if mm.group(1) not in callmap:
-                    raise TranslateError('writer: unknown call %r in %s' % (mm.group(1), fname))
-                args = [a.strip() for a in mm.group(2).split(',') if a.strip()]
-                terms.append('(%s %s)' % (callmap[mm.group(1)], ' '.join(args)))
+                    terms.extend(helper_terms(mm.group(1), args, depth))
+                else:
+                    terms.append('(%s %s)' % (callmap[mm.group(1)], ' '.join(args)))
                 text = text[mm.end():].strip()
                 continue
             mm = re.match(r'^Ok\(\(\)\)$', text)
